@@ -4,7 +4,12 @@ use std::io::{self, SeekFrom};
 pub struct Metadata { n: u64 }
 impl Metadata { pub fn len(&self) -> u64 { self.n } }
 pub struct File { data: Vec<u8>, pos: u64 }
+thread_local! { static SIDECAR: std::cell::RefCell<Option<Vec<u8>>> = std::cell::RefCell::new(None); }
+pub struct BufReader { data: Vec<u8> }
+impl BufReader { pub fn new(f: File) -> Self { BufReader { data: f.data } }
+    pub fn lines(self) -> impl Iterator<Item = io::Result<String>> { let text = String::from_utf8_lossy(&self.data).into_owned(); let mut v: Vec<io::Result<String>> = text.split('\n').map(|l| Ok(l.strip_suffix('\r').unwrap_or(l).to_string())).collect(); if text.ends_with('\n') || text.is_empty() { v.pop(); } v.into_iter() } }
 impl File {
+    pub fn open(_p: &std::path::PathBuf) -> io::Result<File> { SIDECAR.with(|s| s.borrow().clone()).map(|data| File { data, pos: 0 }).ok_or_else(|| io::Error::new(io::ErrorKind::NotFound, "absent")) }
     pub fn metadata(&self) -> io::Result<Metadata> { Ok(Metadata { n: self.data.len() as u64 }) }
     pub fn seek(&mut self, s: SeekFrom) -> io::Result<u64> { if let SeekFrom::Start(p) = s { self.pos = p; } Ok(self.pos) }
     pub fn read_exact(&mut self, buf: &mut [u8]) -> io::Result<()> {
@@ -24,7 +29,8 @@ pub trait Parse: Sized { fn parse(b: &[u8]) -> Option<Self>; }
 fn parse_seq(b: &[u8]) -> Option<u64> { let s = std::str::from_utf8(b).ok()?; let s = s.strip_prefix('e')?; let t = s.trim_end_matches('x'); if t.is_empty() { return None; } t.parse().ok() }
 impl Parse for Event { fn parse(b: &[u8]) -> Option<Self> { parse_seq(b).map(|seq| Event { seq }) } }
 impl Parse for SidecarEventHeader { fn parse(b: &[u8]) -> Option<Self> { parse_seq(b).map(|seq| SidecarEventHeader { id: String::new(), seq, session_id: "c".into(), stream_kind: StreamKind::Continuity, stream_id: "c".into(), event_type: String::new() }) } }
-pub mod serde_json { pub fn from_slice<T: super::Parse>(b: &[u8]) -> Result<T, String> { T::parse(b).ok_or_else(|| "parse".to_string()) } }
+pub mod serde_json { pub fn from_str<T: super::Parse>(s: &str) -> Result<T, String> { T::parse(s.as_bytes()).ok_or_else(|| "parse".to_string()) }
+    pub fn from_slice<T: super::Parse>(b: &[u8]) -> Result<T, String> { T::parse(b).ok_or_else(|| "parse".to_string()) } }
 //@@ item crates/ripd/src/continuity_stream_cache.rs const REVERSE_SCAN_CHUNK_BYTES
 //@@ item crates/ripd/src/continuity_stream_cache.rs struct SidecarBackwardScan
 //@@ item crates/ripd/src/continuity_stream_cache.rs enum ParseMode
@@ -34,10 +40,53 @@ pub mod serde_json { pub fn from_slice<T: super::Parse>(b: &[u8]) -> Result<T, S
 //@@ end
 //@@ fn crates/ripd/src/continuity_stream_cache.rs scan_sidecar_backwards
 //@@ end
+//@@ item crates/ripd/src/continuity_stream_cache.rs struct TailScan
+pub struct ContinuityStreamCache;
+impl ContinuityStreamCache {
+    fn path_for(&self, id: &str) -> std::path::PathBuf { std::path::PathBuf::from(id) }
+    //@@ fn crates/ripd/src/continuity_stream_cache.rs ContinuityStreamCache::try_replay
+    //@@ end
+    //@@ fn crates/ripd/src/continuity_stream_cache.rs ContinuityStreamCache::scan_tail
+    //@@ end
+}
+// whole-stream and tail answers from the sidecar: equal to the truth stream's, or refused (Err -> the caller replays the truth log)
+fn replay_clauses() {
+    // sidecar = any sequence of up to 4 records with seq in 0..4 (gaps, repeats, out of order, not starting at 0), blank lines, a torn record
+    let toks = ["e0", "e1", "e2", "e3", "", "e"];
+    for n in 0..=4usize { for code in 0..toks.len().pow(n as u32) {
+        let mut c = code; let lines: Vec<&str> = (0..n).map(|_| { let t = toks[c % toks.len()]; c /= toks.len(); t }).collect();
+        let mut data = Vec::new(); for l in &lines { data.extend_from_slice(l.as_bytes()); data.push(b'\n'); }
+        SIDECAR.with(|s| *s.borrow_mut() = Some(data.clone()));
+        let recs: Vec<u64> = lines.iter().filter_map(|l| parse_seq(l.as_bytes())).collect();
+        let torn = lines.iter().any(|l| *l == "e");
+        let cache = ContinuityStreamCache;
+        match cache.try_replay("c") {
+            Ok(Some(v)) => { let got: Vec<u64> = v.iter().map(|e| e.seq).collect(); let want: Vec<u64> = (0..got.len() as u64).collect();
+                if got != want || got != recs || torn || got.is_empty() { println!("WITNESS {{\"function\": \"ContinuityStreamCache::try_replay\", \"sidecar_lines\": {:?}, \"returned_seqs\": {:?}, \"problem\": \"a sidecar that is not the whole stream 0,1,2,... was served as the thread's events instead of being refused\"}}", lines, got); std::process::exit(0); } }
+            Ok(None) => { println!("WITNESS {{\"function\": \"ContinuityStreamCache::try_replay\", \"sidecar_lines\": {:?}, \"problem\": \"an existing sidecar was reported absent\"}}", lines); std::process::exit(0); }
+            Err(_) => { let ok = !torn && !recs.is_empty() && recs == (0..recs.len() as u64).collect::<Vec<_>>();
+                if ok { println!("WITNESS {{\"function\": \"ContinuityStreamCache::try_replay\", \"sidecar_lines\": {:?}, \"problem\": \"a complete, well-formed sidecar was refused\"}}", lines); std::process::exit(0); } }
+        }
+        for max_events in [1usize, 2, 10] {
+            match cache.scan_tail("c", max_events, 1 << 20) {
+                Ok(Some(t)) => { let got: Vec<u64> = t.events.iter().map(|e| e.seq).collect();
+                    let tail_want: Vec<u64> = recs[recs.len().saturating_sub(max_events)..].to_vec();
+                    let contiguous = got.windows(2).all(|w| w[1] == w[0] + 1);
+                    if !contiguous || got != tail_want || torn && got.len() < max_events.min(recs.len()) && false { println!("WITNESS {{\"function\": \"ContinuityStreamCache::scan_tail\", \"sidecar_lines\": {:?}, \"max_events\": {}, \"returned_seqs\": {:?}, \"problem\": \"the tail served from the sidecar is not the newest records in contiguous ascending seq order\"}}", lines, max_events, got); std::process::exit(0); } }
+                Ok(None) => { println!("WITNESS {{\"function\": \"ContinuityStreamCache::scan_tail\", \"sidecar_lines\": {:?}, \"problem\": \"an existing sidecar was reported absent\"}}", lines); std::process::exit(0); }
+                Err(_) => {}
+            }
+        }
+    } }
+    SIDECAR.with(|s| *s.borrow_mut() = None);
+    let cache = ContinuityStreamCache;
+    if !matches!(cache.try_replay("c"), Ok(None)) || !matches!(cache.scan_tail("c", 4, 64), Ok(None)) { println!("WITNESS {{\"function\": \"ContinuityStreamCache::try_replay\", \"problem\": \"an absent sidecar is not reported as absent\"}}"); std::process::exit(0); }
+}
 
 fn main() {
     let args: Vec<String> = std::env::args().collect();
     let label = args.get(1).cloned().unwrap_or_default();
+    if label.starts_with("replay") || label.is_empty() { replay_clauses(); if !label.is_empty() { return; } }
     if label.starts_with("strip_line_terminator") {
         let alpha = [b'a', b'\n', b'\r'];
         for n in 0..=5u32 { for code in 0..3usize.pow(n) {
